@@ -259,6 +259,41 @@ def layout(ctx, rule="C01.layout"):
                         cases.append(c)
     total_na += _run_cases(ctx, rule, fs["prepare_multimode"].site, "prepare_multimode", run_prep, cases,
                            fs["prepare_multimode"].node.lineno)
+    # ---- dealloc (Del): the remaining modes keep their reduced state, in the canonical mixed layout
+    f_de = ctx.tree.func(FC, "Circuit.dealloc")
+
+    def run_de(m, f, case):
+        o = _circuit_obj(ctx, case["n"], case["pure"])
+        m.call(f, [list(case["targets"])], {}, o)
+        return o
+
+    def final_de(case):
+        def chk(m, o):
+            st = o.attrs["_state"]
+            kept = [mm for mm in range(case["n"]) if mm not in case["targets"]]
+            pure_after = o.attrs["_pure"]
+            want = [x for mm in kept for x in ((("K", mm),) if pure_after else (("K", mm), ("B", mm)))]
+            if pure_after:
+                return "a register with a mode traced out is flagged pure"
+            if not isinstance(st, Tensor) or list(st.labels) != want:
+                return f"state layout after deleting {list(case['targets'])} is {st}, expected {Tensor(want)}"
+            if o.attrs.get("_num_modes") != len(kept):
+                return f"_num_modes is {o.attrs.get('_num_modes')} for {len(kept)} remaining modes"
+            return ""
+        return chk
+
+    cases = []
+    for n in range(2, min(N, 5) + 1):
+        for pure in (True, False):
+            for k in (1, 2):
+                if k >= n:
+                    continue
+                for t in itertools.permutations(range(n), k):
+                    c = {"n": n, "pure": pure, "targets": t, "label": f"n={n} pure={pure} deleted={list(t)}",
+                         "role": f"dealloc:{'pure' if pure else 'mixed'}:k{k}:{_posclass(t)}"}
+                    c["final"] = final_de(c)
+                    cases.append(c)
+    total_na += _run_cases(ctx, rule, f_de.site, "dealloc", run_de, cases, f_de.node.lineno)
     if total_na:
         raise AnalysisError(f"{rule}: {total_na} case(s) could not be interpreted (construct not modelled): "
                             f"{ctx.not_analysed[-1]['why']}")
